@@ -31,6 +31,7 @@ type Profile struct {
 	LongTime    bool // allow day/year block gaps
 	FeeModes    []int
 	DupSigners  bool
+	GovKinds    []string // which modules' parameters governance changes (default: all four)
 }
 
 // rapid's integer generators are deliberately biased towards small values and
@@ -452,7 +453,11 @@ func GenScenario(t *rapid.T, p *Profile) *Scenario {
 			blk.Txs = append(blk.Txs, tx)
 		}
 		if pct(t, p.PGovParams, "govParams") {
-			kind := pick(t, []string{ParamsEnt, ParamsWrk, ParamsBcn, ParamsStr}, "govKind")
+			kinds := p.GovKinds
+			if len(kinds) == 0 {
+				kinds = []string{ParamsEnt, ParamsWrk, ParamsBcn, ParamsStr}
+			}
+			kind := pick(t, kinds, "govKind")
 			op := GenOp(t, p, kind, nAcc)
 			op.Actor, op.Named = -1, -1
 			blk.Txs = append(blk.Txs, Tx{Ops: []Op{op}, Wrap: WrapGov})
